@@ -124,7 +124,7 @@ def make_item(spec: dict):
 def to_dtype(rows, dtype: str):
     """tensor in `dtype` and the float64 tensor of the values it holds"""
     t = torch.tensor(rows, dtype=torch.float64).to(getattr(torch, dtype))
-    return t, t.to(torch.float64)
+    return t, t.to(torch.float64).clone()      # never an alias of `t`: the harness updates `t` in place (stale-read probes)
 
 
 # ----------------------------------------------------------------------------- float64 reference (torch)
